@@ -472,6 +472,18 @@ impl<T> StrB<T> {
     let ghost ctx_roles = ($x.effects.role(), $x.events.role());
 //@end
 
+//@extract id=RequestBuilder::then_stream::task file=crux_core/src/command/builder.rs within="impl<Effect, Event, Task, T> RequestBuilder<Effect, Event, Task>" item="fn then_stream" closure="StreamBuilder::new\(" props=C04
+//@expect |$x|
+//@sig fn request_then_stream_task<Effect, Event, T, U, F: FnOnce(T) -> StrB<U>>(this: ReqB<T>, make_next_builder: F, $x: CommandContext<Effect, Event>) -> (r: Strm<U>)
+//@contract
+    requires forall|t: T| call_requires(make_next_builder, (t,)),
+    ensures r.id() == inner_streams_one_after_another(each_item_mapped_once_in_order(the_one_output_as_a_stream(output_mapped_once(task_in(this.id(), $x.effects.role(), $x.events.role()))))), // [C04/request-then_stream/the-one-output-makes-the-next-builder-whose-stream-is-then-followed]
+//@rule X19.captured-self * s/\bself\b/this/
+//@rule X1.closure-contract * closure#\.flat_map\(#|$x: StrB<U>| -> (s: Strm<U>) ensures s.id() == task_in($x.id(), ctx_roles.0, ctx_roles.1) // [C04/request-then_stream/the-next-stream-runs-in-the-same-context]\n#
+//@entry
+    let ghost ctx_roles = ($x.effects.role(), $x.events.role());
+//@end
+
 //@extract id=RequestBuilder::map::task file=crux_core/src/command/builder.rs within="impl<Effect, Event, Task, T> RequestBuilder<Effect, Event, Task>" item="fn map" closure="RequestBuilder::new\(" props=C04
 //@expect |$x|
 //@sig fn request_map_task<Effect, Event, T, U, F: FnOnce(T) -> U>(this: ReqB<T>, map: F, $x: CommandContext<Effect, Event>) -> (r: Fut<U>)
